@@ -16,6 +16,7 @@ from ural.quote import (
     safely_quote,
     safely_quote_qsl,
     upper_quoted,
+    quote_lone_percents,
 )
 from ural.ensure_protocol import ensure_protocol
 from ural.patterns import CONTROL_CHARS_RE
@@ -28,6 +29,10 @@ def canonicalize_url(
     url = CONTROL_CHARS_RE.sub("", url)
     url = url.strip()
     url = upper_quoted(url)
+
+    # NOTE: a "%" that does not start an escape is a literal percent sign, which
+    # both modes must spell the same way ("%25") to agree and be idempotent
+    url = quote_lone_percents(url)
 
     # Ensuring a protocol
     url = ensure_protocol(url, default_protocol)
